@@ -25,7 +25,7 @@ FUNCTIONS = ["ioflo.base.framing.Framer.clone/resolveMoots/prune/newAuxTag/newMo
              "ioflo.base.building.Builder.buildAux/buildRear/buildRaze (concrete text)"]
 ASSUMPTIONS = [
     "variants: V1 two insular clones + one named clone on two frames; V2 clone nested inside a clone of a second moot framer; "
-    "V3 clone reared at run time into another frame, razed later (raze all / first / last)",
+    "V3 clone reared at run time into another frame, razed later (raze all / first / last); V4 moot framer with nested frames and an explicit `under` primary-child override",
     "moot framer: c0 (inc 'cnt of framer' at recur; go c1 if y >= 1; timeout 3) -> c1 (put 7 into 'mark of frame'; repeat 2) -> c2 (done me): explicit, implicit-clock and relative-data references",
     "the reference house replaces the clones on the frame under test by the plain original (schedule aux)",
     "integer store time; inputs in [0,1], fresh each tick; 3 (quick) / 4 (thorough) ticks after start",
@@ -50,7 +50,27 @@ ORIG = [
 ]
 
 
+UNDER = [
+    "    frame top",
+    "      do verif record at enter", "      do verif record at recur", "      do verif record at exit",
+    "      under beta",
+    "    frame alpha in top",
+    "      do verif record at enter", "      do verif record at recur", "      do verif record at exit",
+    "    frame beta in top",
+    "      do verif record at enter", "      do verif record at recur", "      do verif record at exit",
+    "      put 0 into cnt of framer",
+    "      recur", "      inc cnt of framer with 1", "      native",
+    "      go alpha if y >= 1",
+]
+
+
 def script(variant, who="all"):
+    if variant == "V4":
+        L = ["house h", "  framer orig be moot first top"] + UNDER
+        L += ["  framer m be active first f0", "    frame f0", "      do verif record at enter", "      do verif record at exit",
+              "      aux orig as mine", "      aux orig as twin", "      go f1 if x >= 1",
+              "    frame f1", "      do verif record at enter", "      do verif record at exit", "      aux orig as mine", "      go f0 if x >= 1"]
+        return "\n".join(L) + "\n"
     L = ["house h", "  framer orig be moot first c0"] + ORIG
     if variant == "V2":
         L += ["  framer outer be moot first o0", "    frame o0", "      do verif record at enter", "      do verif record at recur",
@@ -71,6 +91,10 @@ def script(variant, who="all"):
 
 
 def ref_script(variant):
+    if variant == "V4":
+        L = ["house h", "  framer orig be aux first top"] + UNDER
+        L += ["  framer m be active first f0", "    frame f0", "      aux orig", "      go f1 if x >= 1", "    frame f1", "      go f0 if x >= 1"]
+        return "\n".join(L) + "\n"
     L = ["house h", "  framer orig be aux first c0"] + ORIG
     if variant == "V3":
         L += ["  framer m be active first f0", "    frame f0", "      aux orig", "      go f1 if x >= 1", "    frame f1", "      go f2 if x >= 1",
@@ -156,7 +180,7 @@ def h(sym, variant, ticks, who="all"):
         own = 0      # recur actions of the clone's first frame since that frame was last entered
         for tk in per_tick:
             for e in tk:
-                if e[0] == c.name and e[1] in ("c0", "o0"):
+                if e[0] == c.name and e[1] in ("c0", "o0", "beta"):
                     if e[2] == "enter":
                         own = 0
                     elif e[2] == "recur":
@@ -216,7 +240,7 @@ def h(sym, variant, ticks, who="all"):
 def obligations(tier):
     out = []
     ticks = 3 if tier == "quick" else 5
-    for v in ("V1", "V2"):
+    for v in ("V1", "V2", "V4"):
         out.append(Ob("clones/%s/t%d" % (v, ticks), h, dict(variant=v, ticks=ticks), budget=900 if tier == "quick" else 2400,
                       covers=["clone-acted"], bounds=dict(variant=v, ticks=ticks, inputs="[0,1]")))
     for who in (("all",) if tier == "quick" else ("all", "first", "last")):
